@@ -51,11 +51,13 @@ ID = "C06"
 TECHNIQUE = "explicit-state BFS over histories of copy/merge/transform calls on live real meshes vs exact reference tuples"
 RULE = ("explicit-state BFS over all histories of copy (4 flag combinations) / merge([a,b]) / merge([a,a]) / merge([a,b,a]) / "
         "translate / rotate (matrix, Rotation, Euler list and tuple) / scale / scale_xyz / normalize (both modes) / fit_into_unit_cube / "
-        "translate_to_origin / flatten / connectivity query, applied to any mesh of a live set of <= 3 meshes, started from "
-        "each of the 65 producer configurations (11 loader files, from_arrays x 6, raw containers x 2, 34 procedural, merge, 8 "
-        "subdivisions, 3 boundary extractions) and from 8 pairs of them; plus a sweep of the 24 axis rotations in every "
-        "argument form with their inverses; a case is one distinct (canonical dump of the real meshes and caller arrays "
-        "incl. aliasing pattern, model) state reached by >= 1 event")
+        "translate_to_origin / flatten / connectivity query / edit of element rows (undone), applied to any mesh of a live set "
+        "of <= 3 meshes, started from each of the 69 producer configurations (12 loader files, from_arrays x 6, raw containers "
+        "x 4 incl. a surface with a free-standing declared edge and a volume with a free-standing declared face, 34 procedural, "
+        "merge, 8 subdivisions, 3 boundary extractions, reorder_vertices) and from 8 pairs of them; every merge event is "
+        "repeated under complete_edges_from_faces=False and under complete_faces_from_cells=False; plus a sweep of the 24 "
+        "axis rotations in every argument form with their inverses; a case is one distinct (canonical dump of the real "
+        "meshes and caller arrays incl. aliasing pattern, model) state reached by >= 1 event")
 ASSUMPTIONS = [
     "transform parameters: t in {(1,0,0),(-1,0,0),(1/2,-2,4),(-1/2,2,-4)}, s in {2,1/2} about 0 and about (1,0,-1), "
     "scale_xyz (2,1/2,4) and its inverse about the default and about (1,0,-1), rotations Rz(+-90), Rx(+-90), one generic "
@@ -67,21 +69,33 @@ ASSUMPTIONS = [
     "correctness is C02/C04/C13/C14/C15); the mesh passed to a subdivision is considered consumed and is not kept live",
     "scale_xyz without origin is expected to scale about (0,0,0) as its docstring says; Euler angles are only used for "
     "single-axis rotations (radians), where no axis convention enters; normalize is skipped on a zero-extent mesh",
-    "merge: element lists are compared as multisets (faces up to rotation of the cycle, edges up to orientation), the "
-    "vertex order exactly; copy: element lists exactly",
+    "merge: element lists are compared as multisets (C06.merge.union) and position by position - element k of input i at "
+    "index k + running element count (C06.merge.union_order; the unchanged library keeps this order under all 4 settings "
+    "of the two completion switches) - faces up to rotation of the cycle, edges up to orientation; the vertex order "
+    "exactly; copy: element lists exactly",
+    "merge under a non-default completion switch: the inputs are built under the default configuration, only the merge "
+    "call runs with the switch off (always restored); the expectation is the same shifted union; that result is compared "
+    "and dropped (not kept live); a switch is exercised only when an input has faces (cells)",
+    "edit event: rows first / middle / last of each element container plus the first row of every input block of a merge "
+    "result; the last index of the row is replaced by the smallest vertex index not in the row (first and last swapped "
+    "when there is none); once by rebinding the row through the container, once - when the row is a list or a numpy row - "
+    "by item assignment; every edit is undone before the next one. Element rows that are numpy views of an index array "
+    "the CALLER passed to from_arrays are not watched (the statement is about copy / merge / transforms)",
+    "structural sharing check (copy vs source, merge result vs every other live mesh, derived mesh vs source for producers "
+    "that keep the source): any list / dict / set / object with __dict__ / numpy memory reachable from both meshes",
     "live set capped at 3 meshes; depth bound as given in coverage.bounds; every history below the bounds is explored",
     "binary STL (native reader) is not used as a producer; split_edge is not used as a producer (its result is not a "
     "valid polyline on the current tree, C13)",
     "after a reported violation the models are re-synchronised with the real objects and the search continues",
 ]
 BOUNDS = {
-    "quick": "65 producer configurations: all histories of <= 2 events (full menu; reduced menu for the 12 configurations "
+    "quick": "69 producer configurations: all histories of <= 2 events (full menu; reduced menu for the 13 configurations "
              "with >= 12 vertices or 2-3 starting meshes); 9 sharing-prone / one-per-class configurations <= 3 events "
              "(reduced menu, mini menu for the 2 boundary configurations); 8 producer pairs <= 2 events (reduced menu); rotation sweep "
              "(23 rotations x 3 argument forms, each followed by its inverse) on 4 producers; live set <= 3 meshes",
-    "thorough": "65 producer configurations: all histories of <= 2 events (full menu) and <= 3 events (reduced menu; full "
-                "menu for 8 sharing-prone / one-per-class configurations); 56 configurations (< 12 vertices, one starting mesh, "
-                "plus the 3 boundary configurations) <= 4 events (mini menu); 4 sharing-prone configurations <= 4 events "
+    "thorough": "69 producer configurations: all histories of <= 2 events (full menu) and <= 3 events (reduced menu; full "
+                "menu for 8 sharing-prone / one-per-class configurations); 60 configurations (< 12 vertices, one starting mesh, "
+                "plus the 3 boundary configurations and reorder_vertices) <= 4 events (mini menu); 4 sharing-prone configurations <= 4 events "
                 "(reduced menu); 8 producer pairs <= 3 events (reduced menu); rotation sweep on 12 producers; live set <= 3 meshes; "
                 "searches with > 10^4 transitions are split by their first event into independent shards",
 }
@@ -387,6 +401,9 @@ def shifted_union(els, nverts):
     return want, starts
 
 
+# most special first (the class named in a report is the first one found among the inputs)
+ELEMENT_CLASSES = ["edges=free_standing", "edges=incomplete", "edges=other_order", "edges=face_walk_order", "edges=no_faces",
+                   "faces=free_standing", "faces=of_cells", "faces=no_cells"]
 NORM = {"edges": lambda e: tuple(sorted(e)), "faces": cyc, "cells": lambda c: c}
 
 
@@ -1199,9 +1216,10 @@ class Run:
         finally:
             cfg.complete_edges_from_faces, cfg.complete_faces_from_cells = old
 
-    def check_union(self, z, ins, ev, icls, want, want_type, wv):
+    def check_union(self, z, ins, ev, icls, want, want_type, wv, cfgname="default"):
         """the result z of merge(ins) against the statement: class, vertices, every element list.
-        -> (something reported, the vertices are wrong)"""
+        Input class of an element-list report: the config setting and the most special class (element_class) found
+        among the inputs for that element kind.  -> (something reported, the vertices are wrong)"""
         bad = vbad = False
         if type(z).__name__ != want_type:
             self.viol("C06.merge.type", "mesh.merge", "mismatch:class", icls, {"event": list(ev), "got": type(z).__name__, "want": want_type})
@@ -1218,15 +1236,18 @@ class Run:
             self.rep.evaluations += 1
             if g == w:
                 continue
-            det = {"event": list(ev), "producers": [x.label for x in ins], "got": got.get(nm), "want": want[nm]}
-            if sorted(g) != sorted(w):
-                self.viol("C06.merge.union", "mesh.merge", "mismatch:" + nm, icls, det)
+            det = {"event": list(ev), "config": cfgname, "inputs": icls, "producers": [x.label for x in ins],
+                   "got": got.get(nm), "want": want[nm]}
+            if nm == "cells":
+                cls = "cells"
             else:
-                k = next(i for i in range(len(g)) if g[i] != w[i])
-                det["first_index_that_differs"] = k
-                key = "faces" if nm == "cells" else "edges"
-                cls = "+".join(sorted({element_class(x.el)[key] for x in ins})) if nm != "cells" else "cells"
-                self.viol("C06.merge.union_order", "mesh.merge", "mismatch:%s_index" % nm, icls + ":" + cls, det)
+                found = {element_class(x.el)[nm] for x in ins}
+                cls = next(c for c in ELEMENT_CLASSES if c in found)
+            if sorted(g) != sorted(w):
+                self.viol("C06.merge.union", "mesh.merge", "mismatch:" + nm, cfgname + ":" + cls, det)
+            else:
+                det["first_index_that_differs"] = next(i for i in range(len(g)) if g[i] != w[i])
+                self.viol("C06.merge.union_order", "mesh.merge", "mismatch:%s_index" % nm, cfgname + ":" + cls, det)
             bad = True
         return bad, vbad
 
@@ -1282,7 +1303,7 @@ class Run:
                           {"event": list(ev), "config": cfgname, "producers": [x.label for x in ins], "msg": o2.msg})
                 bad = True
                 continue
-            b2, _ = self.check_union(o2.value, ins, list(ev) + [cfgname], types + ":" + cfgname, want, want_type, wv)
+            b2, _ = self.check_union(o2.value, ins, ev, types + ":" + cfgname, want, want_type, wv, cfgname)
             rep.outcome("merge_cfg", (cfgname, "violation" if b2 else "ok", len(read_elements(o2.value).get("edges", ()))))
             bad = b2 or bad
         # ---- structural: nothing mutable is reachable from the result and from another live mesh
@@ -1292,8 +1313,8 @@ class Run:
         for k, paths in shared_with(z, [st.live[w].real for w in others]):
             w = others[k]
             self.viol("C06.merge.no_shared_state", "mesh.merge", "side_effect:shared_mutable_state",
-                      "shared=" + path_tops(paths) + ("" if w in idxs else ":with_a_mesh_that_is_not_an_input"),
-                      {"event": list(ev), "other_mesh": w, "other_mesh_producer": st.live[w].label,
+                      "shared=" + path_tops(paths),
+                      {"event": list(ev), "other_mesh": w, "other_mesh_is_an_input": w in idxs, "other_mesh_producer": st.live[w].label,
                        "shared_paths_in_other_mesh": paths[:10]})
             rep.count("merge_shared_state_reports")                # structural: the models are not touched
         rep.outcome("merge", (icls, "violation" if bad else "ok"))
@@ -1526,6 +1547,8 @@ class Run:
 def run_task(task, rep: Report):
     import mouette  # noqa: F401  (binds the repository under test)
     from mc.c06_producers import write_files
+    cfg = mouette.config
+    switches = (cfg.complete_edges_from_faces, cfg.complete_faces_from_cells)     # process-global: left as found
     d = tempfile.mkdtemp(prefix="c06_", dir="/dev/shm")
     try:
         write_files(d)
@@ -1539,6 +1562,7 @@ def run_task(task, rep: Report):
         else:
             r.rotsweep()
     finally:
+        cfg.complete_edges_from_faces, cfg.complete_faces_from_cells = switches
         shutil.rmtree(d, ignore_errors=True)
 
 
